@@ -283,6 +283,19 @@ def printed_value(out, name):
 
 def run_case_files(ctx, files, names=("bad",), timeout=3600):
     """coqc each generated case file (in parallel); returns {file: {name: value}} or raises"""
+    # the executable model the case files import is rebuilt from its sources first (a stale .vo
+    # would evaluate yesterday's model)
+    mods = set()
+    for f in files:
+        with open(f) as fh:
+            head = fh.read(4000)
+        for m in re.finditer(r"From Rigo Require Import ([^.]*)\.", head):
+            mods.update(m.group(1).split())
+    if mods:
+        okm, outm = coq_make(["theories/%s.vo" % m for m in sorted(mods)])
+        if not okm:
+            return {f: {"rc": 1, "out": "model does not build: " + outm[-3000:], "s": 0} for f in files}
+
     def one(f):
         t = time.time()
         rc, out = sh(["coqc", "-Q", THEORIES, "Rigo", os.path.basename(f)], cwd=os.path.dirname(f), timeout=timeout)
